@@ -37,3 +37,15 @@ Proof.
   cbv zeta. unfold wf_regions, region_sizes, data_end, zlen. cbn [map length].
   rewrite !repeat_length. rewrite !Z2Nat.id by lia. split; [reflexivity | lia].
 Qed.
+(* the same read byte by byte (no reference to [flat_write]): after an in-range write the
+   bytes at addr .. addr+len-1 of the image are the data, every other byte of the image
+   keeps its value and every region keeps its size *)
+Theorem C18_bytes : forall st data addr,
+  wf_regions st -> 0 <= addr -> addr + zlen data <= data_end ->
+  exists st', write_cart_data st data addr = Ok st' /\ map zlen st' = map zlen st /\
+    (forall i, (Z.to_nat addr <= i < Z.to_nat addr + length data)%nat ->
+               nth_error (flat st') i = nth_error data (i - Z.to_nat addr)) /\
+    (forall i, (i < Z.to_nat addr \/ Z.to_nat addr + length data <= i)%nat ->
+               nth_error (flat st') i = nth_error (flat st) i).
+Proof. exact write_cart_data_bytes. Qed.
+Print Assumptions C18_bytes.
